@@ -227,3 +227,143 @@ class LineBudget:
     def __exit__(self, *exc):
         sys.settrace(self._old)
         return False
+
+
+# --------------------------------------------------------------------------
+class SimId:
+    """The simulator's stand-in for the builtin ``id`` inside every loaded
+    ``nasim`` module (a module global named ``id`` shadows the builtin).
+
+    Which address a new object gets - in particular whether it gets the
+    address of an object that has just died - is decided by the memory
+    allocator, i.e. by the whole history of the process: a source of
+    nondeterminism.  Behind this seam the decision is the simulator's: every
+    object whose id is asked for is tracked with a weak reference; when it
+    dies its simulated address goes to a free list, and a *new* object is
+    handed (by policy) the most recently freed address, as CPython's pool
+    allocator typically does for objects of one size class.  Only addresses
+    of objects that are really dead are ever reused, so code that is correct
+    under CPython's rules sees nothing it could not see in a real process.
+    The shipped tree never calls ``id``; the seam matters for changed trees
+    that key a memo by ``id(obj)`` without keeping ``obj`` alive."""
+
+    BASE = 0x7F3A00000000
+    current = None
+
+    def __init__(self, seed=0):
+        import weakref
+        self._weakref = weakref
+        k = (seed % (2 ** 31)) % 6
+        # whose address a new object gets: of the same type / of anything /
+        # never a used one; and which of the recently freed ones: the last
+        # freed, the one before, or a (deterministic) mix of the last four
+        self.policy = ("same_type", "same_type", "same_type", "same_type",
+                       "any", "never")[k]
+        self.pick = ("mix", "mix", "lifo", "second", "mix", "lifo")[k]
+        self.salt = seed % (2 ** 31)
+        self.registry = {}        # real id -> (weakref, simulated address)
+        self.dead = {}            # type -> [freed simulated addresses]
+        self.dead_all = []
+        self.next = 0
+        self.calls = 0
+        self.reused = 0
+        self.fallback = 0
+        self.installed = []
+
+    def __call__(self, obj):
+        self.calls += 1
+        rid = id(obj)
+        ent = self.registry.get(rid)
+        if ent is not None and ent[0]() is obj:
+            return ent[1]
+        t = type(obj)
+        try:
+            wr = self._weakref.ref(obj, self._died(rid, t))
+        except TypeError:
+            self.fallback += 1
+            return rid
+        addr = None
+        if self.policy == "same_type":
+            pool = self.dead.get(t)
+            if pool:
+                addr = pool.pop(self._which(len(pool)))
+                if addr in self.dead_all:
+                    self.dead_all.remove(addr)
+        elif self.policy == "any":
+            if self.dead_all:
+                addr = self.dead_all.pop(self._which(len(self.dead_all)))
+                for pool in self.dead.values():
+                    if addr in pool:
+                        pool.remove(addr)
+        if addr is None:
+            addr = self.BASE + 64 * self.next
+            self.next += 1
+        else:
+            self.reused += 1
+        self.registry[rid] = (wr, addr)
+        return addr
+
+    def _which(self, n):
+        """Index (from the end) of the freed address to hand out."""
+        if self.pick == "lifo" or n == 1:
+            return -1
+        if self.pick == "second":
+            return -2
+        h = (self.salt * 2654435761 + self.calls * 40503) % 1000003
+        return -1 - (h % min(n, 4))
+
+    def _died(self, rid, t):
+        def cb(wr, self=self, rid=rid, t=t):
+            ent = self.registry.get(rid)
+            if ent is not None and ent[0] is wr:
+                del self.registry[rid]
+                self.dead.setdefault(t, []).append(ent[1])
+                self.dead_all.append(ent[1])
+                if len(self.dead_all) > 256:
+                    old = self.dead_all.pop(0)
+                    for pool in self.dead.values():
+                        if old in pool:
+                            pool.remove(old)
+        return cb
+
+    def install(self):
+        for name, mod in list(sys.modules.items()):
+            if (name == "nasim" or name.startswith("nasim.")) and \
+                    mod is not None and "id" not in vars(mod):
+                mod.id = self
+                self.installed.append(mod)
+        SimId.current = self
+        return self
+
+    def uninstall(self):
+        for mod in self.installed:
+            if vars(mod).get("id") is self:
+                del mod.id
+        self.installed = []
+        if SimId.current is self:
+            SimId.current = None
+
+
+def install_sim_id(seed):
+    """(Re)install the id seam for one run; the previous run's table is
+    dropped."""
+    if SimId.current is not None:
+        SimId.current.uninstall()
+    # when an object dies must be the simulation's doing as well: cyclic
+    # garbage is collected only at points the harness names (run start, an
+    # environment being replaced), never by the allocation-count trigger
+    import gc
+    gc.disable()
+    gc.collect()
+    # everything that exists now is set aside: the collections at the
+    # drop points only have to look at what the run itself created
+    gc.freeze()
+    import nasim.envs            # noqa: F401  (make sure the modules exist)
+    import nasim.scenarios       # noqa: F401
+    return SimId(seed).install()
+
+
+def collect_now():
+    """A point at which dropped environments really die (see SimId)."""
+    import gc
+    gc.collect()
